@@ -116,6 +116,14 @@ CHECKS["C14"] = (
     "DESIGN.md 6/C14",
 )
 
+CHECKS["C15"] = (
+    "exploration",
+    "exhaustive enumeration of every base video format x one-field (two-field) perturbations x coding modes x admitting real levels, and of every header iter_sequence_headers yields for each; validated under the real level value tables and decoded parameters compared",
+    "Each of the ~120k (quick) generated headers, wrapped as 'sequence_header, end_of_sequence', must be accepted by the validator under the configured level's real value table and decode to exactly the configured video parameters and picture coding mode; at the unconstrained level at least one header must be generated.",
+    "Header-only streams (level ordering patterns swapped for '.*'); known finding F7 (levels 64/65 demand major_version 2) is attributed only to ValueNotAllowedInLevel on key major_version at those levels.",
+    "DESIGN.md 6/C15",
+)
+
 NOT_YET = "check not built yet in this revision (planned, see DESIGN.md section 6)"
 
 
